@@ -7,6 +7,7 @@ Local Open Scope Z_scope.
 
 Inductive k8s_case :=
 | KScale (del : bool) (set : string) (e : Z) (before : cluster) (after : cluster)
+| KScaleF (fails del : bool) (set : string) (e : Z) (before : cluster) (after : cluster) (err : bool)   (* the update call is made to fail *)
 | KShards (set : string) (port : Z) (pods : list pod) (observed : list shard_out)
 | KReplicas (l : list sts_status) (observed : list string).
 
@@ -14,6 +15,8 @@ Inductive k8s_case :=
 Definition k8s_agree (c : k8s_case) : bool :=
   match c with
   | KScale del set e before after => cluster_eqb (change_scale del set e before) after
+  | KScaleF fails del set e before after err =>
+    let (c', e') := change_scale_f fails del set e before in cluster_eqb c' after && Bool.eqb e' err
   | KShards set port pods obs => list_eqb shard_out_eqb (shards set port pods) obs
   | KReplicas l obs => list_eqb String.eqb (replicas_first_call l) obs
   end.
@@ -55,6 +58,12 @@ Definition replicas_ok (l : list sts_status) (obs : list string) : bool :=
 Definition k8s_prop_ok (c : k8s_case) : bool :=
   match c with
   | KScale del set e b a => scale_ok del set e b a
+  | KScaleF fails del set e b a err =>
+    (* a scale request that did not take effect deletes nothing and is reported *)
+    if option_eqb Z.eqb (spec_replicas a) (spec_replicas b)
+    then list_eqb String.eqb (pvcs a) (pvcs b) &&
+         Bool.eqb err (fails && match spec_replicas b with Some old => negb (old =? e) | None => false end)
+    else scale_ok del set e b a && negb err
   | KShards set port pods obs => shards_ok set port pods obs
   | KReplicas l obs => replicas_ok l obs
   end.
